@@ -288,10 +288,17 @@ func runChecks(r *vcore.Run, p *prover, label string, statZK bool) {
 
 	// ---- (2) zero-stream reference
 	var zero [2]map[string]string
+	zeroOK := true
 	for k := 0; k < 2; k++ {
 		tap := randtap.Install(randtap.Zero)
 		pr, err := p.prove(popts...)
 		tap.Restore()
+		if tap.Exhausted {
+			// the prover refuses zero randomness (re-samples): there is no unblinded reference run
+			r.Count("zero-stream.refused-by-prover(re-sampling)", 1)
+			zeroOK = false
+			break
+		}
 		if err != nil {
 			r.Inconclusive("zero-stream-prove:" + err.Error())
 			return
@@ -302,17 +309,19 @@ func runChecks(r *vcore.Run, p *prover, label string, statZK bool) {
 		}
 		zero[k] = elemMap(p.elems(pr))
 	}
-	det := true
-	for n, v := range zero[0] {
-		if zero[1][n] != v {
-			det = false
+	det := zeroOK
+	if zeroOK {
+		for n, v := range zero[0] {
+			if zero[1][n] != v {
+				det = false
+			}
 		}
+		if !det {
+			r.Inconclusive("zero-stream-not-deterministic")
+			return
+		}
+		r.Count("zero-stream.deterministic", 1)
 	}
-	if !det {
-		r.Inconclusive("zero-stream-not-deterministic")
-		return
-	}
-	r.Count("zero-stream.deterministic", 1)
 	// which elements can be compared with the zero-stream proof: without commitments all
 	// blinded ones; with commitments the wire values depend on the (masked) commitment, so
 	// only the first commitment itself (it commits witness values only)
@@ -323,6 +332,9 @@ func runChecks(r *vcore.Run, p *prover, label string, statZK bool) {
 		cmp = []string{"Commitments[0]"}
 	} else {
 		cmp = []string{"Bsb22Commitments[0]"}
+	}
+	if !zeroOK {
+		cmp = nil
 	}
 	for k, h := range honest {
 		for _, n := range cmp {
